@@ -129,6 +129,15 @@ class Builder:
                         v = decode(lst[i]) if isinstance(lst, list) and i < len(lst) else None
                         if f == "__memo__":
                             memo = v
+                        elif "." in f:
+                            tgt = o
+                            parts = f.split(".")
+                            try:
+                                for a in parts[:-1]:
+                                    tgt = tgt.__dict__[a] if a in getattr(tgt, "__dict__", {}) else getattr(tgt, a)
+                                self.setattr_raw(tgt, parts[-1], v)
+                            except Exception:
+                                pass
                         else:
                             self.setattr_raw(o, f, v)
                 if isinstance(o, Rec):
@@ -334,6 +343,12 @@ class OldRewriter(ast.NodeTransformer):
 SPEC_FUNS = {}
 
 
+def _deep_get(o, dotted):
+    for a in dotted.split("."):
+        o = getattr(o, a)
+    return o
+
+
 def spec_env(window):
     lo, hi = window
 
@@ -359,7 +374,8 @@ def spec_env(window):
     return {"forall_int": forall_int, "exists_int": exists_int, "implies": lambda a, b: (not a) or bool(b),
             "iff": lambda a, b: bool(a) == bool(b), "tag": tag, "truthy": bool, "str_of": lambda v: f"{v}",
             "strip": lambda s: s.strip(), "seq_contains": lambda c, x: x in c, "same": lambda a, b: a is b or a == b,
-            "is_fresh": lambda v: True, "strictly_increasing": lambda xs: all(a < b for a, b in zip(xs, xs[1:])), "ufun_bool": ufun, "ufun_val": ufun, "ufun_int": ufun, "ufun_str": ufun}
+            "is_fresh": lambda v: True, "strictly_increasing": lambda xs: all(a < b for a, b in zip(xs, xs[1:])),
+            "prefix_sum": lambda xs, f, k: sum(_deep_get(x, f) for x in xs[:max(0, k)]), "ufun_bool": ufun, "ufun_val": ufun, "ufun_int": ufun, "ufun_str": ufun}
 
 
 def compile_clause(text, macros, roots):
